@@ -648,7 +648,10 @@ func (m *machine) obligation(cond value, tag string) {
 	if m.replaying() {
 		// already decided by the ancestor path that created this prefix
 		if isConc && !c {
-			panic(pathEnd{"abort", "assertion failed in prefix"})
+			// The ancestor path went on after this assertion (the prefix has decisions behind
+			// it), so the failure was only a listed finding there: go on here as well.
+			m.knownPassed = append(m.knownPassed, tag)
+			return
 		}
 		m.assume(term)
 		return
